@@ -71,7 +71,7 @@ entered.  Together with `C01.core_semantic_preservation` (all other outcomes) th
 call of every core program. -/
 theorem core_call_stack_check (cf : Core.Config) (args : List Int) (pr : Core.CProg)
     (hw : 2 ≤ cf.w) (hck : cf.checked = true)
-    (hB : Core.progLen cf.checked pr + stdlibLength < 256 ^ cf.w) (hSE : Core.F0 cf args < 256 ^ cf.w)
+    (hB : Core.progLen cf.checked pr + stdlibLength < 256 ^ cf.w) (hSE : Core.F0 cf args + Core.regsLen cf.w pr < 256 ^ cf.w)
     (hwf : Core.wfProg pr = true) (hlen : args.length = pr.params.length)
     (hpkF : ∀ fd ∈ pr.funs, Core.pkS cf.w (Core.entryOff cf.w fd.params) fd.body < 256 ^ cf.w)
     (fuel : Nat) (env' : Core.Env) (tr : List Ev)
